@@ -18,7 +18,8 @@ pub struct LineTruth {
     pub dedents: Vec<Vec<(usize, usize)>>,
     /// expected text of kept lines after dedent
     pub expected: Vec<Option<String>>,
-    /// an unwrapped element nested in an unwrapped body starts left of the outer column + outer dedent
+    /// for some surviving line, three readings of "nested dedent" (original offsets; outer block first with the inner
+    /// block's amount recomputed on the shifted text; inner block first) give different indentations
     pub ambiguous: bool,
     /// the first inner line of an unwrapped element is whitespace-only but not empty
     pub ws_first_inner: bool,
@@ -30,6 +31,8 @@ pub fn line_truth(r: &Rendered, tr: &Truth) -> LineTruth {
     let text: Vec<String> = r.lines.iter().map(|(s, e)| r.src[*s..*e].to_string()).collect();
     let mut fate = vec![Fate::Kept; n];
     let mut dedents: Vec<Vec<(usize, usize)>> = vec![vec![]; n];
+    // (tag column, first inner line's indentation) of every enclosing unwrapped element, outermost first
+    let mut params: Vec<Vec<(usize, usize)>> = vec![vec![]; n];
     let mut ambiguous = false;
     let mut ws_first_inner = false;
     let mut unwrapped = vec![];
@@ -60,9 +63,6 @@ pub fn line_truth(r: &Rendered, tr: &Truth) -> LineTruth {
                     ws_first_inner = true;
                 }
                 let d = f.saturating_sub(t);
-                if t < bound[e.open_line] {
-                    ambiguous = true;
-                }
                 for l in e.open_first_line..=e.open_line + 1 {
                     if fate[l] == Fate::Kept {
                         fate[l] = Fate::Removed { seam: 4 * i + 1 };
@@ -75,6 +75,7 @@ pub fn line_truth(r: &Rendered, tr: &Truth) -> LineTruth {
                 }
                 for l in e.open_line + 2..e.close_line - 1 {
                     dedents[l].push((t, d));
+                    params[l].push((t, if has_inner { f } else { t }));
                     bound[l] = bound[l].max(t + d);
                 }
             }
@@ -102,6 +103,39 @@ pub fn line_truth(r: &Rendered, tr: &Truth) -> LineTruth {
             }
         }
         expected[l] = Some(s);
+    }
+    // ambiguity: compare three readings of the nested dedent on every surviving non-blank line with >= 2 enclosing blocks
+    let step = |x: usize, t: usize, d: usize| x - x.saturating_sub(t).min(d);
+    for l in 0..n {
+        if fate[l] != Fate::Kept || is_blank(&text[l]) || params[l].len() < 2 {
+            continue;
+        }
+        let li = lead(&text[l]);
+        let ps = &params[l];
+        // (B') innermost block first, every block with its amounts as written in the input
+        let mut inner_first = li;
+        for (t, f) in ps.iter().rev() {
+            inner_first = step(inner_first, *t, f.saturating_sub(*t));
+        }
+        // (B) outermost block first; the tag column and the first inner line of the next block are shifted with it
+        let mut shifted: Vec<(usize, usize)> = vec![];
+        for (t, f) in ps.iter() {
+            let (mut t2, mut f2) = (*t, *f);
+            for (ta, da) in &shifted {
+                t2 = step(t2, *ta, *da);
+                f2 = step(f2, *ta, *da);
+            }
+            shifted.push((t2, f2.saturating_sub(t2)));
+        }
+        let mut outer_first = li;
+        for (t, d) in &shifted {
+            outer_first = step(outer_first, *t, *d);
+        }
+        // (A) what `expected` holds
+        let a = expected[l].as_ref().map(|s| lead(s)).unwrap_or(li);
+        if !(a == inner_first && a == outer_first) {
+            ambiguous = true;
+        }
     }
     LineTruth { text, fate, dedents, expected, ambiguous, ws_first_inner, unwrapped }
 }
